@@ -133,3 +133,200 @@ Proof.
       rewrite Hlen in Hle. replace (t + Z.of_nat 10 * pow10 l) with (t + pow10 (S l)) in Hle by (rewrite pow10_S; lia).
       lia.
 Qed.
+
+(* ---------- generic: termwise <= and equal sums force termwise equality ---------- *)
+Lemma sum_le_map {X} (f g : X -> Z) l : (forall x, In x l -> f x <= g x) -> sumZ (map f l) <= sumZ (map g l).
+Proof.
+  induction l as [|x l IH]; intros Hl; [cbn; lia|]. cbn [map]. rewrite !sumZ_cons.
+  pose proof (Hl x (or_introl eq_refl)). assert (forall y, In y l -> f y <= g y) by (intros; apply Hl; right; auto).
+  specialize (IH H0). lia.
+Qed.
+
+Lemma sum_squeeze {X} (f g : X -> Z) l : (forall x, In x l -> f x <= g x) ->
+  sumZ (map g l) <= sumZ (map f l) -> forall x, In x l -> f x = g x.
+Proof.
+  induction l as [|y l IH]; intros Hl Hs x Hx; [destruct Hx|].
+  cbn [map] in Hs. rewrite !sumZ_cons in Hs.
+  pose proof (Hl y (or_introl eq_refl)) as Hy.
+  assert (Hl' : forall z, In z l -> f z <= g z) by (intros; apply Hl; right; auto).
+  pose proof (sum_le_map f g l Hl') as Hle.
+  destruct Hx as [Hx|Hx]; [subst; lia|]. apply IH; auto. lia.
+Qed.
+
+(* what was written into the slots that hold a child (no range) *)
+Definition oW (H : list write) (l : nat) (o : option snode) : Z :=
+  match o with Some c => W H l (sn_time c) | None => 0 end.
+
+Lemma oW_sum_le H l : Forall good_write H -> forall ch t0, slots (wf l) (pow10 l) t0 ch ->
+  sumZ (map (oW H l) ch) <= WR H t0 (t0 + Z.of_nat (length ch) * pow10 l).
+Proof.
+  intros HH. pose proof (pow10_pos l) as Hp. induction ch as [|o ch IH]; intros t0 Hs.
+  - cbn. apply WR_nonneg. exact HH.
+  - cbn [slots map length] in *. rewrite sumZ_cons. destruct Hs as [Ho Hr]. specialize (IH _ Hr).
+    pose proof (WR_split H t0 (pow10 l) (Z.of_nat (length ch) * pow10 l) t0 (t0 + Z.of_nat (S (length ch)) * pow10 l)
+                  ltac:(lia) ltac:(nia)) as Hsp.
+    replace (Z.max t0 t0) with t0 in Hsp by lia.
+    replace (Z.min (t0 + pow10 l) (t0 + Z.of_nat (S (length ch)) * pow10 l)) with (t0 + pow10 l) in Hsp by nia.
+    replace (Z.max (t0 + pow10 l) t0) with (t0 + pow10 l) in Hsp by lia.
+    replace (Z.min (t0 + pow10 l + Z.of_nat (length ch) * pow10 l) (t0 + Z.of_nat (S (length ch)) * pow10 l))
+      with (t0 + pow10 l + Z.of_nat (length ch) * pow10 l) in Hsp by nia.
+    replace (t0 + Z.of_nat (S (length ch)) * pow10 l) with (t0 + pow10 l + Z.of_nat (length ch) * pow10 l) by lia.
+    pose proof (WR_nonneg H t0 (t0 + pow10 l) HH).
+    destruct o as [c|]; cbn [oW]; [|lia]. destruct Ho as [Ht _]. rewrite W_WR, Ht. lia.
+Qed.
+
+(* children of an exact node whose content is the sum of its children's are exact (squeeze) *)
+Lemma children_exact E H l t ch : Forall good_write H ->
+  slots (wf l) (pow10 l) t ch -> length ch = 10%nat -> oall (ninv E H l) ch ->
+  osum E l ch = W H (S l) t ->
+  (forall c, In (Some c) ch -> content E l c = W H l (sn_time c)) /\
+  sumZ (map (oW H l) ch) = W H (S l) t.
+Proof.
+  intros HH Hs Hlen Hn Hsum.
+  pose proof (oW_sum_le H l HH ch t Hs) as Hle. rewrite Hlen in Hle.
+  replace (t + Z.of_nat 10 * pow10 l) with (t + pow10 (S l)) in Hle by (rewrite pow10_S; lia).
+  rewrite <- W_WR in Hle.
+  assert (Hterm : forall o, In o ch -> ocontent E l o <= oW H l o).
+  { intros o Ho. destruct o as [c|]; cbn; [|lia]. pose proof (oall_In _ _ _ Hn Ho) as Hc.
+    destruct c as [tc pc sc wc chc]. cbn [sn_time]. destruct l; cbn [ninv] in Hc; apply Hc. }
+  unfold osum in Hsum.
+  pose proof (sum_le_map _ _ ch Hterm) as Hle2.
+  assert (Hsq : sumZ (map (oW H l) ch) <= sumZ (map (ocontent E l) ch)) by lia.
+  split; [|lia].
+  intros c Hc. exact (sum_squeeze _ _ ch Hterm Hsq (Some c) Hc).
+Qed.
+
+(* ---------- C03_total at a node ---------- *)
+Definition all_inside (H : list write) (qa qb : Z) : Prop := Forall (fun w => qa <= w_a w /\ w_b w <= qb) H.
+
+Lemma W_outside_range H lvl t qa qb : all_inside H qa qb -> Forall good_write H ->
+  (t + pow10 lvl <= qa \/ qb <= t) -> W H lvl t = 0.
+Proof.
+  intros Ha HH Hout. unfold W. induction Ha as [|w H [Hw1 Hw2] _ IH]; [reflexivity|].
+  inversion HH as [|w0 H0 [G1 G2] HH']; subst. cbn [map]. rewrite sumZ_cons, (IH HH'). unfold wov.
+  assert (ov t (t + pow10 lvl) (w_a w) (w_b w) = 0) by (unfold ov; lia). nia.
+Qed.
+
+Lemma gsum_total : forall lvl n E H qa qb, qa < qb -> Forall good_write H -> all_inside H qa qb ->
+  wf lvl n -> ninv E H lvl n -> content E lvl n = W H lvl (sn_time n) ->
+  gsum E lvl qa qb n = W H lvl (sn_time n).
+Proof.
+  induction lvl as [|l IH]; intros [t p s w ch] E H qa qb Hq HH Hin Hwf Hn Hex; cbn [gsum sn_time] in *.
+  - change (pow10 0) with 1 in *. pose proof (rel_spec t (t + 1) qa qb ltac:(lia) Hq) as Hr.
+    pose proof (rel_unit t qa qb Hq) as Hu. cbn [content] in Hex.
+    destruct p; cbn [andb].
+    + destruct (relationship t (t + 1) qa qb); cbn [covers is_outside]; try contradiction; try exact Hex.
+      symmetry. apply (W_outside_range H 0 t qa qb Hin HH). change (pow10 0) with 1. lia.
+    + destruct (is_outside _); lia.
+  - pose proof (pow10_pos (S l)) as HpS. pose proof (pow10_pos l) as Hp.
+    pose proof (rel_spec t (t + pow10 (S l)) qa qb ltac:(lia) Hq) as Hr.
+    destruct Hwf as [Hm [Hlen Hs]]. pose proof Hn as (N1 & N2 & N3 & N4).
+    destruct (p && covers _) eqn:E1.
+    { apply andb_prop in E1. destruct E1 as [Ep _]. subst p. exact Hex. }
+    destruct (is_outside _) eqn:E2.
+    { symmetry. apply (W_outside_range H (S l) t qa qb Hin HH).
+      destruct (relationship t (t + pow10 (S l)) qa qb); cbn in E2; try discriminate. lia. }
+    (* the node is cut by the range, or not present: its children carry everything *)
+    assert (Hsub : osum E l ch = W H (S l) t).
+    { rewrite content_unfold in Hex. destruct p; [|exact Hex].
+      cbn [andb] in E1. rewrite <- Hex. apply N3; [reflexivity|].
+      intros [w0 [Hw0 Hc]]. unfold all_inside in Hin. rewrite Forall_forall in Hin. specialize (Hin w0 Hw0).
+      destruct (relationship t (t + pow10 (S l)) qa qb); cbn in E1, E2; try discriminate; lia. }
+    destruct (children_exact E H l t ch HH Hs Hlen N4 Hsub) as [Hce HsumW].
+    fold (ogsum E l qa qb). rewrite <- HsumW. f_equal. apply map_ext_in. intros o Ho.
+    destruct o as [c|]; cbn [ogsum oW]; [|reflexivity].
+    apply IH; auto.
+    + exact (slots_In _ _ _ _ _ Hs Ho).
+    + exact (oall_In _ _ _ N4 Ho).
+Qed.
+
+(* ---------- C03_split at a node ---------- *)
+Lemma ninv_content_nonneg E H lvl n : ninv E H lvl n -> 0 <= content E lvl n.
+Proof. destruct n, lvl; cbn [ninv]; intros (N1 & _); lia. Qed.
+
+Lemma gsum_nonneg : forall lvl n E H qa qb, wf lvl n -> ninv E H lvl n -> 0 <= gsum E lvl qa qb n.
+Proof.
+  induction lvl as [|l IH]; intros [t p s w ch] E H qa qb Hwf Hn; cbn [gsum].
+  - pose proof (ninv_content_nonneg _ _ _ _ Hn) as Hc. cbn [content] in Hc.
+    destruct p; cbn [andb]; [destruct (covers _); [exact Hc|]|]; destruct (is_outside _); lia.
+  - pose proof (ninv_content_nonneg _ _ _ _ Hn) as Hc. cbn [content] in Hc.
+    destruct Hn as (_ & _ & _ & N4). destruct Hwf as [_ [_ Hs]].
+    assert (0 <= sumZ (map (fun o => match o with Some c => gsum E l qa qb c | None => 0 end) ch)).
+    { clear Hc. revert t Hs. induction ch as [|o ch IHc]; intros t0 Hs; [cbn; lia|].
+      cbn [map slots] in *. rewrite sumZ_cons. destruct Hs as [Ho Hr]. inversion N4; subst.
+      specialize (IHc H3 _ Hr). destruct o as [c|]; [|lia].
+      pose proof (IH c E H qa qb (proj2 Ho) H2). lia. }
+    destruct p; cbn [andb]; [destruct (covers _); [exact Hc|]|]; destruct (is_outside _); lia.
+Qed.
+
+Lemma subsum_le_content E H lvl n : ninv E H lvl n -> subsum E lvl n <= content E lvl n.
+Proof.
+  destruct n as [t p s w ch]. intros Hn. rewrite content_unfold.
+  destruct p; [|lia]. destruct lvl; cbn [ninv] in Hn; apply Hn; reflexivity.
+Qed.
+
+(* two adjacent ranges never take more out of a node than it holds *)
+Lemma gsum_two_le_content : forall lvl n E H s m e, s < m -> m < e -> wf lvl n -> ninv E H lvl n ->
+  gsum E lvl s m n + gsum E lvl m e n <= content E lvl n.
+Proof.
+  induction lvl as [|l IH]; intros [t p s0 w ch] E H s m e Hsm Hme Hwf Hn.
+  - pose proof (ninv_content_nonneg _ _ _ _ Hn) as Hc. cbn [gsum content] in *. change (pow10 0) with 1.
+    pose proof (rel_spec t (t + 1) s m ltac:(lia) Hsm) as R1. pose proof (rel_spec t (t + 1) m e ltac:(lia) Hme) as R2.
+    destruct p; cbn [andb];
+      destruct (relationship t (t + 1) s m), (relationship t (t + 1) m e); cbn [covers is_outside]; lia.
+  - pose proof (pow10_pos (S l)) as HpS.
+    pose proof (ninv_content_nonneg _ _ _ _ Hn) as Hc. pose proof (subsum_le_content _ _ _ _ Hn) as Hsc.
+    pose proof (rel_spec t (t + pow10 (S l)) s m ltac:(lia) Hsm) as R1.
+    pose proof (rel_spec t (t + pow10 (S l)) m e ltac:(lia) Hme) as R2.
+    destruct Hn as (_ & _ & _ & N4). pose proof Hwf as [_ [_ Hs]].
+    assert (Hkids : sumZ (map (ogsum E l s m) ch) + sumZ (map (ogsum E l m e) ch) <= subsum E (S l) (SNode t p s0 w ch)
+                    /\ 0 <= sumZ (map (ogsum E l s m) ch) /\ 0 <= sumZ (map (ogsum E l m e) ch)).
+    { cbn [subsum sn_ch]. unfold osum. clear Hc Hsc R1 R2 Hwf. revert t Hs.
+      induction ch as [|o ch IHc]; intros t0 Hs; [cbn; lia|].
+      cbn [map slots] in *. rewrite !sumZ_cons. destruct Hs as [Ho Hr]. inversion N4; subst.
+      specialize (IHc H3 _ Hr). destruct o as [c|]; cbn [ogsum ocontent]; [|lia].
+      pose proof (IH c E H s m e Hsm Hme (proj2 Ho) H2).
+      pose proof (gsum_nonneg l c E H s m (proj2 Ho) H2). pose proof (gsum_nonneg l c E H m e (proj2 Ho) H2). lia. }
+    destruct Hkids as (K1 & K2 & K3).
+    cbn [gsum]. fold (ogsum E l s m). fold (ogsum E l m e).
+    rewrite content_unfold in Hc, Hsc |- *.
+    destruct p; cbn [andb].
+    + destruct (relationship t (t + pow10 (S l)) s m), (relationship t (t + pow10 (S l)) m e);
+        cbn [covers is_outside]; lia.
+    + destruct (is_outside (relationship t (t + pow10 (S l)) s m)), (is_outside (relationship t (t + pow10 (S l)) m e)); lia.
+Qed.
+
+Lemma gsum_split : forall lvl n E H s m e, s < m -> m < e -> wf lvl n -> ninv E H lvl n ->
+  gsum E lvl s m n + gsum E lvl m e n <= gsum E lvl s e n.
+Proof.
+  induction lvl as [|l IH]; intros [t p s0 w ch] E H s m e Hsm Hme Hwf Hn.
+  - pose proof (ninv_content_nonneg _ _ _ _ Hn) as Hc. cbn [gsum content] in *. change (pow10 0) with 1.
+    pose proof (rel_spec t (t + 1) s m ltac:(lia) Hsm) as R1. pose proof (rel_spec t (t + 1) m e ltac:(lia) Hme) as R2.
+    pose proof (rel_spec t (t + 1) s e ltac:(lia) ltac:(lia)) as R.
+    destruct p; cbn [andb];
+      destruct (relationship t (t + 1) s m), (relationship t (t + 1) m e), (relationship t (t + 1) s e);
+      cbn [covers is_outside]; lia.
+  - pose proof (pow10_pos (S l)) as HpS.
+    pose proof (gsum_two_le_content (S l) _ E H s m e Hsm Hme Hwf Hn) as L1.
+    pose proof (ninv_content_nonneg _ _ _ _ Hn) as Hc.
+    pose proof (rel_spec t (t + pow10 (S l)) s m ltac:(lia) Hsm) as R1.
+    pose proof (rel_spec t (t + pow10 (S l)) m e ltac:(lia) Hme) as R2.
+    pose proof (rel_spec t (t + pow10 (S l)) s e ltac:(lia) ltac:(lia)) as R.
+    destruct Hn as (_ & _ & _ & N4). pose proof Hwf as [_ [_ Hs]].
+    assert (Hkids : sumZ (map (ogsum E l s m) ch) + sumZ (map (ogsum E l m e) ch) <= sumZ (map (ogsum E l s e) ch)
+                    /\ 0 <= sumZ (map (ogsum E l s m) ch) /\ 0 <= sumZ (map (ogsum E l m e) ch)).
+    { clear L1 Hc R1 R2 R Hwf. revert t Hs.
+      induction ch as [|o ch IHc]; intros t0 Hs; [cbn; lia|].
+      cbn [map slots] in *. rewrite !sumZ_cons. destruct Hs as [Ho Hr]. inversion N4; subst.
+      specialize (IHc H3 _ Hr). destruct o as [c|]; cbn [ogsum]; [|lia].
+      pose proof (IH c E H s m e Hsm Hme (proj2 Ho) H2).
+      pose proof (gsum_nonneg l c E H s m (proj2 Ho) H2). pose proof (gsum_nonneg l c E H m e (proj2 Ho) H2). lia. }
+    destruct Hkids as (K1 & K2 & K3).
+    cbn [gsum] in *. fold (ogsum E l s m) in *. fold (ogsum E l m e) in *. fold (ogsum E l s e).
+    rewrite content_unfold in Hc, L1.
+    destruct p; cbn [andb] in *.
+    + destruct (relationship t (t + pow10 (S l)) s m), (relationship t (t + pow10 (S l)) m e),
+               (relationship t (t + pow10 (S l)) s e); cbn [covers is_outside] in *; lia.
+    + destruct (relationship t (t + pow10 (S l)) s m), (relationship t (t + pow10 (S l)) m e),
+               (relationship t (t + pow10 (S l)) s e); cbn [covers is_outside] in *; lia.
+Qed.
